@@ -160,3 +160,9 @@ package auth
 //@   sink [C07] idp_login_only_for_signed_in_domain_uri: GetSignInURL requires called(@validRedirectURI#1) && @validRedirectURI#1 && called(@validRedirectURI#2) && @validRedirectURI#2 && called(@validSignature#1) && @validSignature#1 && arg(@validSignature#1, 0) == arg(@validRedirectURI#2, 0) && arg(@validSignature#1, 3) == p.ProxyClientSecret && arg(@validRedirectURI#1, 1) == p.ProxyRootDomains && arg(@validRedirectURI#2, 1) == p.ProxyRootDomains
 //@   sink [C07] redirect_to_provider_sign_in: Redirect requires $arg0 == rw && called(@GetSignInURL#1) && $arg2 == @GetSignInURL#1
 //@   ensures [C07] refused_is_400: !called(@GetSignInURL#1) ==> rw.$status == 400
+
+// ---- C02: the authenticator's ciphers are keyed with the whole decoded secrets ------------------------------------
+//@ func SetCookieStore$1(a *Authenticator) error
+//@   modifies everything
+//@   sink [C02] code_cipher_keyed_with_the_whole_session_key: NewMiscreantCipher requires called(@DecodeString#1) && @DecodeString#1.1 == nil && arg(@DecodeString#1, 1) == sessionConfig.Key && $arg0 == @DecodeString#1.0
+//@   sink [C02] cookie_cipher_keyed_with_the_whole_cookie_secret: CreateMiscreantCookieCipher requires called(@DecodeString#2) && @DecodeString#2.1 == nil && arg(@DecodeString#2, 1) == sessionConfig.CookieConfig.Secret && $arg0 == @DecodeString#2.0
